@@ -555,13 +555,22 @@ def violation(eng, res, cfg, gene, c0, c1, fsv, hyps, ev, label, key, obj=None):
     if st == "sat":
         fsval = {a: float(symx.model_value(mm, v)) for a, v in fsv.items()}
         pairs = list(itertools.combinations_with_replacement(sorted(gene.cn_configs), 2))
-        cases = [(h, 0) for h in pairs] + [(("1", "1"), k_) for k_ in
-                                            range(1, cfg["max_cn"] + 2)]
-        for h, k_ in cases:
+        cases = [(h, 0, 0) for h in pairs] + [(("1", "1"), k_, 0) for k_ in
+                                               range(1, cfg["max_cn"] + 2)]
+        dele = gene.deletion_allele()
+        if len(gene.regions) > 1:
+            # extra pseudogene copies on top of the reference pair / of a double deletion
+            # (the latter has no admissible explanation with extras)
+            for j_ in range(1, cfg["max_cn"] + 2):
+                cases.append((("1", "1"), 0, j_))
+                if dele:
+                    cases.append(((dele, dele), 0, j_))
+        for h, k_, j_ in cases:
             g0 = {r: float(sum(gene.cn_configs[a].cn[0].get(r, 0) for a in h)
                            + k_ * gene.cn_configs["1"].cn[0].get(r, 0))
                   for r in gene.unique_regions}
-            g1 = {r: float(sum(gene.cn_configs[a].cn[1].get(r, 0) for a in h))
+            g1 = {r: float(sum(gene.cn_configs[a].cn[1].get(r, 0) for a in h)
+                           + j_ * gene.cn_configs["1"].cn[1].get(r, 0))
                   if len(gene.regions) > 1 else 0.0 for r in gene.unique_regions}
             rp = {"kind": "model", "gene": cfg["gene"], "genome": cfg["genome"],
                   "max_cn": cfg["max_cn"], "c0": g0, "c1": g1,
